@@ -65,6 +65,28 @@ type tickOp struct {
 	signer string // "A" alphabet, "AN" alphabet+node, "N" node only, "S" stranger, "AO" alphabet + the other node
 }
 
+// tickCanon moves netmap.NewEpoch events to the end and sorts each run of consecutive events of one contract.
+func tickCanon(l []Notif) []string {
+	var out, own []string
+	for i := 0; i < len(l); {
+		if l[i].Contract == "netmap" && l[i].Name == "NewEpoch" {
+			own = append(own, fmt.Sprint(l[i]))
+			i++
+			continue
+		}
+		j := i
+		var run []string
+		for j < len(l) && l[j].Contract == l[i].Contract && !(l[j].Contract == "netmap" && l[j].Name == "NewEpoch") {
+			run = append(run, fmt.Sprint(l[j]))
+			j++
+		}
+		sort.Strings(run)
+		out = append(out, run...)
+		i = j
+	}
+	return append(out, own...)
+}
+
 func (o tickOp) target(epoch int) int {
 	if o.plus32 {
 		return epoch + 1<<32
@@ -411,7 +433,9 @@ func (d *TickDriver) Step(x *Exec, n *Node, i int) StepResult {
 		nn.M = m
 		return StepResult{Next: nn, Outcome: "FAULT"}
 	}
-	if fmt.Sprint(obs.Notifs) != fmt.Sprint(expN) {
+	// the subscribers' effects must come in subscription order; where Netmap's own NewEpoch event sits among
+	// them, and the order inside one subscriber's burst, is not part of the statement
+	if fmt.Sprint(tickCanon(obs.Notifs)) != fmt.Sprint(tickCanon(expN)) {
 		return viol("notifications", fmt.Sprintf("got %v want %v", obs.Notifs, expN))
 	}
 	if len(expN) == 0 && changed {
